@@ -8,10 +8,13 @@ import SonicSpec.Driver.IO
 import SonicSpec.Driver.Json
 import SonicSpec.Driver.Opts
 import SonicSpec.Driver.Conc
+import SonicSpec.Driver.Search
+import SonicSpec.Driver.RW
+import SonicSpec.Driver.Ast
 namespace SonicSpec.Driver
 
 def handlers : List (List String → Option String) :=
-  [ Str.handle, Num.handle, Loader.handle, Own.handle, Mem.handle, IO.handle, Json.handle, Opts.handle, Conc.handle ]
+  [ Str.handle, Num.handle, Loader.handle, Own.handle, Mem.handle, IO.handle, Json.handle, Opts.handle, Conc.handle, Search.handle, RW.handle, Ast.handle ]
 
 /-- one protocol line in (already split at tabs), one result line out -/
 def dispatch (parts : List String) : String :=
